@@ -37,6 +37,8 @@ type World struct {
 	Gen       map[string][]byte
 	Lemmas    map[string]*Lemma
 	StoredGlobals map[string]bool // globals assigned outside package initialisation
+	Broken        map[string]*Contract // contracts set aside because they no longer fit the current tree
+	BrokenWhy     map[string]string
 }
 
 type SpecFn struct {
